@@ -28,6 +28,7 @@ import (
 	"time"
 
 	"github.com/modelcontextprotocol/go-sdk/mcp"
+	"github.com/modelcontextprotocol/go-sdk/verif/memio"
 	"github.com/modelcontextprotocol/go-sdk/verif/vt"
 	"pgregory.net/rapid"
 )
@@ -68,9 +69,12 @@ const modernVersion = "2026-07-28"
 // ---- script -------------------------------------------------------------------
 
 type Sess struct {
-	Legacy  bool    `json:"legacy,omitempty"`
-	H       [3]bool `json:"h"`                 // list-changed handlers set in ClientOptions: tools, prompts, resources
-	Initial bool    `json:"initial,omitempty"` // connected before the timeline starts
+	Legacy bool `json:"legacy,omitempty"`
+	// SlowConnect: the client connects 15 ms (virtual) after the server side has bound the session, so a
+	// pending change burst is fanned out while the session exists but has not introduced itself yet.
+	SlowConnect bool    `json:"slow_connect,omitempty"`
+	H           [3]bool `json:"h"`                 // list-changed handlers set in ClientOptions: tools, prompts, resources
+	Initial     bool    `json:"initial,omitempty"` // connected before the timeline starts
 }
 
 type Event struct {
@@ -130,6 +134,7 @@ func gen(rt *rapid.T) Script {
 	for i := 0; i < ns; i++ {
 		var x Sess
 		x.Legacy = rapid.IntRange(0, 9).Draw(rt, "legacy") < 4
+		x.SlowConnect = rapid.IntRange(0, 3).Draw(rt, "slow_connect") == 0
 		switch m := rapid.IntRange(0, 9).Draw(rt, "handlers"); {
 		case m < 4:
 			x.H = [3]bool{true, true, true}
@@ -504,8 +509,25 @@ func runInBubble(s Script) (res vt.Result) {
 		return false
 	}
 
-	connect := func(i int) {
+	// connectPhase: "both" connects a slot back to back; "server" only binds the server side of a
+	// SlowConnect slot (state 3: the session exists on the server, the peer has not introduced itself);
+	// "client" completes such a slot.
+	pendingClient := map[int]func() bool{}
+	var connectPhase func(i int, phase string)
+	connect := func(i int) { connectPhase(i, "both") }
+	connectPhase = func(i int, phase string) {
 		sl := slots[i]
+		if phase == "client" {
+			if sl.state != 3 {
+				return
+			}
+			fin := pendingClient[i]
+			delete(pendingClient, i)
+			if !fin() {
+				sl.state = 2
+			}
+			return
+		}
 		if sl.state != 0 {
 			return
 		}
@@ -563,49 +585,81 @@ func runInBubble(s Script) (res vt.Result) {
 			}
 		})
 		sl.client = c
-		st, ct := mcp.NewInMemoryTransports()
+		var st, ct mcp.Transport
+		if sl.spec.SlowConnect {
+			// a buffered byte pipe: what the server writes before the client reads does not block it
+			a, b := memio.NewPipe()
+			st, ct = &mcp.IOTransport{Reader: a, Writer: a}, &mcp.IOTransport{Reader: b, Writer: b}
+		} else {
+			st, ct = mcp.NewInMemoryTransports()
+		}
 		var err error
-		ok := runSync(func() {
-			sl.ss, err = server.Connect(ctx, st, nil)
-			if err != nil {
-				return
-			}
+		clientConnect := func() {
 			var o *mcp.ClientSessionOptions
 			if sl.spec.Legacy {
 				o = &mcp.ClientSessionOptions{ProtocolVersion: legacyVersion}
 			}
 			sl.cs, err = c.Connect(ctx, ct, o)
-		})
-		if !ok || err != nil || sl.cs == nil {
-			res.Failf("harness: connecting session %d over the in-memory transport: finished=%v err=%v", i, ok, err)
-			sl.state = 2
+		}
+		finish := func(ok bool) bool {
+			if !ok || err != nil || sl.cs == nil {
+				res.Failf("harness: connecting session %d over the in-memory transport: finished=%v err=%v", i, ok, err)
+				sl.state = 2
+				return false
+			}
+			want := modernVersion
+			if sl.spec.Legacy {
+				want = legacyVersion
+			}
+			if got := sl.cs.InitializeResult().ProtocolVersion; got != want {
+				res.Failf("harness: session %d negotiated %q, the script needs %q", i, got, want)
+			}
+			for nk := 0; nk < 3; nk++ {
+				switch {
+				case capOf(nk) == "off":
+					sl.entitled[nk] = 0
+				case sl.spec.Legacy:
+					sl.entitled[nk] = 1
+				case !sl.spec.H[nk]:
+					sl.entitled[nk] = 0
+				case advertised(nk):
+					sl.entitled[nk] = 1 // Connect opened subscriptions/listen for it and the server advertises listChanged
+				default:
+					// The capability was not advertised when the client connected (no such feature yet and
+					// no explicit capability): whether the listen request is honoured is not stated.
+					sl.entitled[nk] = -1
+				}
+			}
+			sl.state = 1
+			sl.connected = w.tick()
+			return true
+		}
+		if sl.spec.SlowConnect && phase == "server" {
+			ok := runSync(func() { sl.ss, err = server.Connect(ctx, st, nil) })
+			if !ok || err != nil {
+				finish(false)
+				return
+			}
+			sl.state = 3
+			pendingClient[i] = func() bool { return finish(runSync(clientConnect)) }
 			return
 		}
-		want := modernVersion
-		if sl.spec.Legacy {
-			want = legacyVersion
-		}
-		if got := sl.cs.InitializeResult().ProtocolVersion; got != want {
-			res.Failf("harness: session %d negotiated %q, the script needs %q", i, got, want)
-		}
-		for nk := 0; nk < 3; nk++ {
-			switch {
-			case capOf(nk) == "off":
-				sl.entitled[nk] = 0
-			case sl.spec.Legacy:
-				sl.entitled[nk] = 1
-			case !sl.spec.H[nk]:
-				sl.entitled[nk] = 0
-			case advertised(nk):
-				sl.entitled[nk] = 1 // Connect opened subscriptions/listen for it and the server advertises listChanged
-			default:
-				// The capability was not advertised when the client connected (no such feature yet and
-				// no explicit capability): whether the listen request is honoured is not stated.
-				sl.entitled[nk] = -1
+		if sl.spec.SlowConnect {
+			ok := runSync(func() { sl.ss, err = server.Connect(ctx, st, nil) })
+			if ok && err == nil {
+				time.Sleep(15 * time.Millisecond)
+				synctest.Wait()
+				ok = runSync(clientConnect)
 			}
+			finish(ok)
+			return
 		}
-		sl.state = 1
-		sl.connected = w.tick()
+		// back to back: over net.Pipe a server write meets no reader until the client has connected
+		finish(runSync(func() {
+			if sl.ss, err = server.Connect(ctx, st, nil); err == nil {
+				clientConnect()
+			}
+		}))
 	}
 
 	closeSess := func(i int) {
@@ -684,8 +738,21 @@ func runInBubble(s Script) (res vt.Result) {
 			connect(i)
 		}
 	}
-	var maxDelay time.Duration
+	// A "connect" of a SlowConnect slot becomes: bind the server side; one feature change 1 ms later (taken
+	// from the event's own kind/name/rm fields); the client side 15 ms after that.
+	var events []Event
 	for _, ev := range s.Events {
+		si := ((ev.Sess % len(slots)) + len(slots)) % len(slots)
+		if ev.Op == "connect" && slots[si].spec.SlowConnect {
+			events = append(events, Event{Dt: ev.Dt, Op: "sconnect", Sess: ev.Sess},
+				Event{Dt: int64(time.Millisecond), Op: "change", Kind: ev.Kind, Name: ev.Name, Rm: ev.Rm},
+				Event{Dt: int64(15 * time.Millisecond), Op: "cconnect", Sess: ev.Sess})
+			continue
+		}
+		events = append(events, ev)
+	}
+	var maxDelay time.Duration
+	for _, ev := range events {
 		if len(res.Violations) > 0 {
 			break
 		}
@@ -720,6 +787,11 @@ func runInBubble(s Script) (res vt.Result) {
 			if eff && capOf(nk) != "off" && live() > 0 {
 				lastEff[nk].ok, lastEff[nk].begin, lastEff[nk].end, lastEff[nk].at = true, b, e, now
 			}
+		case "sconnect":
+			connectPhase(si, "server")
+			res.Class("session_bound_before_the_peer_introduced_itself")
+		case "cconnect":
+			connectPhase(si, "client")
 		case "connect":
 			if slots[si].state == 0 && pendingTimer(now) {
 				nt.sessInBurst = true
